@@ -1304,6 +1304,19 @@ Definition expressible (href_fmt : string -> string) (href_parse : string -> opt
            (r : request) : bool :=
   valid href_fmt href_parse (normalise r).
 
+(** What a call of the client API denotes: a CalendarMultiGet without Paths
+    asks for the resource the report is addressed to (caldav/client.go,
+    MultiGetCalendar); every other value denotes itself. *)
+Definition denote (path : string) (r : request) : request :=
+  match r with
+  | RMultiget m =>
+    match mg_paths m with
+    | [] => RMultiget {| mg_paths := [path]; mg_cr := mg_cr m |}
+    | _ => r
+    end
+  | RQuery _ => r
+  end.
+
 (** The backend call a request denotes. *)
 Definition backend_call_of (path : string) (r : request) : backend_call :=
   match r with
@@ -1502,9 +1515,10 @@ Definition client_agrees (path : string) (r : request) (body : xtree) (call : re
   && sb (res_call_eq_dec (canon_call (handle_report href_parse path body)) call).
 
 Definition client_spec_ok (path : string) (r : request) (body : xtree) (call : res backend_call) : bool :=
-  if expressible href_fmt href_parse r && fits_request r then
-    sb (opt_request_eq_dec (rfc_read href_parse body) (Some (normalise r)))
-    && sb (res_call_eq_dec call (Ok (backend_call_of path (normalise r))))
+  let r' := denote path r in
+  if expressible href_fmt href_parse r' && fits_request r' then
+    sb (opt_request_eq_dec (rfc_read href_parse body) (Some (normalise r')))
+    && sb (res_call_eq_dec call (Ok (backend_call_of path (normalise r'))))
   else true.
 
 (** Stream (b), server.  [doc] is the tokenised document the harness's own
